@@ -128,6 +128,7 @@ type Exec struct {
 	InitSteps   int
 	baseGlobals map[*ssa.Global]*value
 	baseInited  map[*ssa.Package]bool
+	noPanicDefault bool
 	pathObs     []obsEntry
 	facts       map[int]bool
 	model       map[string]interface{}
@@ -182,6 +183,7 @@ func (ex *Exec) Run() {
 
 func (ex *Exec) runPath(prefix []int) {
 	ex.prefix, ex.pos, ex.trail = prefix, 0, nil
+	ex.lim.NoPanicCheck = ex.noPanicDefault
 	ex.pc, ex.draws = nil, nil
 	ex.protected = map[*value]string{}
 	ex.protectedMaps = map[*MapV]string{}
